@@ -384,6 +384,35 @@ func (p *c13) Check(sc *runner.Scenario, st *runner.Stats, pin string) *runner.V
 	// two collections empty any sync.Pool left filled by earlier scenarios
 	runtime.GC()
 	runtime.GC()
+	if ex.Clause != "map_order" && pinned(pin, "map_order") {
+		// every other clause compares a writer with itself under some disturbance; first make
+		// sure its output is stable when it runs alone (attributing plain run-to-run variation
+		// to a schedule or to history would give a replay that shows again only by chance)
+		var writers []c13Task
+		if ex.Clause == "gomaxprocs" {
+			writers = []c13Task{{Kind: "writer", Cfg: *sc.Cfg, WL: *sc.WL}}
+		}
+		for _, tk := range ex.Tasks {
+			if tk.Kind == "writer" {
+				writers = append(writers, tk)
+			}
+		}
+		for i, tk := range writers {
+			first, res := drive.Image(tk.Cfg, tk.WL)
+			st.Evaluations++
+			if res.FirstProblem() != "" {
+				break // reported by the clause itself
+			}
+			for r := 1; r <= 5; r++ {
+				img, _ := drive.Image(tk.Cfg, permuteMaps(tk.WL, r))
+				st.Evaluations++
+				if !bytes.Equal(first, img) {
+					return viol(sc, "map_order", "writer task %d (%s), run alone several times with its maps built in different insertion orders, produced different output", i, gen.CfgClass(tk.Cfg))
+				}
+			}
+		}
+		st.Inc("probe.solo_stability_prechecks")
+	}
 	switch ex.Clause {
 	case "history":
 		// the same writer run twice in one process, with other instances (other codecs,
@@ -407,7 +436,9 @@ func (p *c13) Check(sc *runner.Scenario, st *runner.Stats, pin string) *runner.V
 			fmt.Fprintf(h, "|%s", res.FirstProblem())
 			return h.Sum(nil)
 		}
-		if ex.Tasks[0].Cfg.Custom == "" { // a custom compressor instance is stateful by design and is not shared
+		// (a custom compressor whose streams depend on how often the instance was used is
+		// stateful by design and is not shared; the stateless ones are)
+		if c := ex.Tasks[0].Cfg.Custom; c == "" || c == "xor" || c == "xorlong" || c == "flate" || c == "byolz4" {
 			a, b := runShared(), runShared()
 			if !bytes.Equal(a, b) && pinned(pin, "history") {
 				return viol(sc, "history", "two writers (%s) created one after the other from the same options value produced different output", gen.CfgClass(ex.Tasks[0].Cfg))
